@@ -844,8 +844,11 @@ func (t *State) GetLDB() kvdb.Database {
 }
 
 func (t *State) ClearCache() {
-	t.utxo.UtxoCache = utxo.NewUtxoCache(t.utxo.CacheSize)
-	t.utxo.PrevFoundKeyCache = cache.NewLRUCache(t.utxo.CacheSize)
+	// in place: SelectUtxos / CheckInputEqualOutput may be inside the cache's critical section right now
+	t.utxo.UtxoCache.Clear()
+	for _, k := range t.utxo.PrevFoundKeyCache.Keys() {
+		t.utxo.PrevFoundKeyCache.Del(k)
+	}
 	t.clearBalanceCache()
 	t.xmodel.CleanCache()
 	t.log.Info("clear utxo cache")
